@@ -13,6 +13,7 @@ FOCUS = {
     'add_': ['add', 'add_cross', 'add_pin_instanced'], 'remove_': ['remove', 'remove_from'], 'create_': ['create_port', 'create_cable',
     'create_child', 'create_pin', 'create_pins', 'create_wire', 'create_wires', 'create_library', 'create_definition', 'create_child_dup'],
     'connect_pin': ['connect'], 'disconnect_pin': ['disconnect', 'disconnect_from'], 'reference': ['reference', 'unreference', 'create_child'],
+    'reference=': ['reference', 'repoint_compatible', 'connect_outer', 'create_port', 'create_pin', 'create_child', 'add'],
     'top_instance': ['top', 'set_top'], 'pins=': ['reorder', 'reorder_bad', 'wire_pins_proxy'], '=': ['reorder', 'reorder_bad', 'scalar', 'name'],
     '__setitem__': ['data'], '__delitem__': ['deldata'], 'pop': ['popdata'], 'name': ['name'], '__init__': ['new'],
 }
@@ -93,9 +94,11 @@ def run(rep, pid, tier, seed, what):
     # bounded cross-check (never counted as proved); also the native replay search behind failed obligations
     fails = _irb.run_histories(rep, pid, tier, seed)
     _irb.report_failures(rep, pid, fails)
-    by_site = {}
-    for f in fails:
-        by_site.setdefault(f.get('last_call', ''), f)
+    # a function that left the supported subset is decided by the bounded tier alone: concentrate extra histories on it
+    for dg in rep.degraded:
+        extra = _irb.run_histories(None, pid, 'quick', seed + 7, focus=_focus_for(dg['function']), nseeds=960)
+        rep.B['evaluations'] += 960
+        _irb.report_failures(rep, pid, extra)
     for fn, o in failed:
         # look for a native witness of this obligation: histories concentrated on the function
         short = fn.split('.')[-1].replace(' del', '').rstrip('=')
